@@ -325,13 +325,12 @@ def sortedFiles (s : FS F P W) (d : Nat) : List (String × Nat) :=
     | Node.file f => some (e.1, f)
     | Node.dir _ => none)).foldr insertSorted []
 
-/-- `dirnode.flush` of one directory's files. -/
+/-- `dirnode.flush` of one directory's files: (file id, content) pairs in name order are handed
+to the file layer's flush and written back. -/
 def flushDir (impl : FileImpl F P W) (short : Bool) (s : FS F P W) (d : Nat) : FS F P W :=
-  let ids := (sortedFiles s d).map (·.2)
-  let cs := ids.filterMap (fun f => (s.files[f]?).map (·.2))
-  if cs.length ≠ ids.length then s else
-  let (w, cs') := impl.flush s.world cs short
-  (ids.zip cs').foldl (fun s (fc : Nat × F) => setFile s fc.1 fc.2) { s with world := w }
+  let pairs := (sortedFiles s d).filterMap (fun e => (s.files[e.2]?).map (fun nf => (e.2, nf.2)))
+  let r := impl.flush s.world (pairs.map (·.2)) short
+  ((pairs.map (·.1)).zip r.2).foldl (fun s (fc : Nat × F) => setFile s fc.1 fc.2) { s with world := r.1 }
 
 def doSync (impl : FileImpl F P W) (s : FS F P W) : FS F P W × Res :=
   ((subdirs s.ents s.dirs.length 0).foldl (flushDir impl true) s, Res.err Err.ok)
